@@ -719,6 +719,10 @@ def _ref_find(t, a, p):
         return [n - 1 if ix is None else ix]
     if mode == 'raw':
         return [int(ix is None), n if ix is None else ix]
+    if mode in ('eval', 'eval-pow2', 'eval-pow2cs'):
+        E = p['e'] if isinstance(p['e'], int) else eval(p['e'], {'len': len, 'x': x})
+        i = E if ix is None else ix
+        return [i if mode == 'eval' else 1 << i]
     if mode == 'pow2':
         i = n if ix is None else ix
         return [1 << i]
@@ -746,6 +750,12 @@ def _real_find(c, a, p):
     if mode == 'raw':
         nf, ix = rt.find(x, tgt, bits=bits, e=None)
         return [nf, ix]
+    if mode == 'eval':
+        return [rt.find(x, tgt, bits=bits, e=p['e'])]
+    if mode == 'eval-pow2':
+        return [rt.find(x, tgt, bits=bits, e=p['e'], f=lambda i: 2 ** i)]
+    if mode == 'eval-pow2cs':
+        return [rt.find(x, tgt, bits=bits, e=p['e'], cs_f=lambda b, i: (b + 1) << i)]
     if mode == 'pow2':
         return [rt.find(x, tgt, bits=bits, f=lambda i: 2 ** i)]
     if mode == 'pow2cs':
